@@ -534,6 +534,62 @@ func c07GroupLookup(rep *report.R, maxRanges int) {
 	lrec()
 }
 
+// c07BigFiles: range files far larger than anything the enumeration builds - more lines than a line scanner's first buffer holds,
+// more ranges than any index granularity (4097, 5000: not multiples of a power of two), more distinct labels than 16 bits count
+// (70001) - every range with a label of its own (or one of three labels, so that long runs share one): every range's first, middle
+// and last address carries its line's label, the address just below the first range and just above the last carry none.
+func c07BigFiles(rep *report.R) {
+	for _, cfg := range []struct {
+		n      int
+		labels int // 0: one label per range
+	}{{130, 0}, {400, 3}, {4097, 0}, {5000, 0}, {70001, 0}} {
+		var sb strings.Builder
+		label := func(i int) string {
+			if cfg.labels > 0 {
+				return []string{"AA", "BB", "CC"}[min(i, cfg.labels-1)]
+			}
+			return fmt.Sprintf("L%d", i)
+		}
+		addr := func(i, off int) netip.Addr { // range i covers 10.x.y.(16k) .. +9, ranges do not touch
+			v := uint32(10)<<24 + uint32(i)*16 + uint32(off)
+			return netip.AddrFrom4([4]byte{byte(v >> 24), byte(v >> 16), byte(v >> 8), byte(v)})
+		}
+		for i := 0; i < cfg.n; i++ {
+			fmt.Fprintf(&sb, "%s,%s,%s\n", addr(i, 0), addr(i, 9), label(i))
+		}
+		desc := fmt.Sprintf("range file with %d ranges (%d octets), %s", cfg.n, sb.Len(), map[bool]string{true: "labels AA, BB, CC...", false: "one label per range"}[cfg.labels > 0])
+		rep.Eval("big-file: " + desc)
+		var m *ipMarker
+		var err error
+		func() {
+			defer func() {
+				if r := recover(); r != nil {
+					err = fmt.Errorf("PANIC %v", r)
+				}
+			}()
+			m, err = loadIpMarkerFromReader(strings.NewReader(sb.String()))
+		}()
+		if err != nil {
+			rep.Violate("C07:groups:big-file-rejected", fmt.Sprintf("%v for a %s", err, desc), nil)
+			continue
+		}
+		bad := 0
+		for i := 0; i < cfg.n && bad < 3; i++ {
+			for _, off := range []int{0, 5, 9} {
+				if got := m.Mark(addr(i, off)); got != label(i) {
+					bad++
+					rep.Violate("C07:groups:wrong-label:big-file", fmt.Sprintf("address %s (range #%d of a %s): label %q, its line says %q", addr(i, off), i, desc, got, label(i)), nil)
+					break
+				}
+			}
+			if got := m.Mark(addr(i, 12)); got != "" {
+				bad++
+				rep.Violate("C07:groups:wrong-label:big-file", fmt.Sprintf("address %s lies between range #%d and the next of a %s and is labelled %q", addr(i, 12), i, desc, got), nil)
+			}
+		}
+	}
+}
+
 func TestVerifC07(t *testing.T) {
 	rep := report.New("C07 cache key, fidelity, groups")
 	defer rep.Write()
@@ -545,6 +601,9 @@ func TestVerifC07(t *testing.T) {
 		len(c07Variants()), maxRec, maxRanges)
 	if report.ReplayFile() == nil {
 		c07GroupLookup(rep, maxRanges)
+		if sh, _ := report.Shard(); sh == 0 {
+			c07BigFiles(rep)
+		}
 	}
 	st := runExplore(t, rep, -1, func(c *choice.Ctx) {
 		switch c.Choose(3, "family") {
